@@ -491,6 +491,9 @@ def case_C08(seed):
     mp1, mt1, res1 = run_match(dict(case, warmup=None))      # the one-shot reference runs on a fresh matcher
     one = U.canon(mt1, res1)
     cuts = sorted(set(rnd.randint(1, n - 1) for _ in range(rnd.randint(1, 2)))) if n > 1 else []
+    if cuts and seed % 4 == 1:
+        # 'any split points': an extension by zero observations (the caller polls and no new fix has arrived yet)
+        cuts = sorted(cuts + [cuts[seed % len(cuts)]])
     mp = U.make_map(case['graph'])
     mt = U.make_matcher(mp, case['cfg'], case.get('warmup'))
     viol = []
